@@ -183,9 +183,21 @@ class Runner(object):
           existing = existing + [int(act["r"])]
         elif act["op"] == "Rem":
           existing = [x for x in existing if x != int(act["r"])]
+      # spelling: consecutive bulk updates of different rows with the same columns are sent as ONE
+      # multi-row BulkUpdateRecord (per row the same update; some rows may be written with their own values)
+      merged = []
+      for ua in uas:
+        if (merged and ua[0] == "BulkUpdateRecord" and merged[-1][0] == "BulkUpdateRecord"
+            and set(ua[3]) == set(merged[-1][3]) and not set(ua[2]) & set(merged[-1][2])):
+          prev = merged[-1]
+          merged[-1] = ["BulkUpdateRecord", TABLE, prev[2] + ua[2], {c: prev[3][c] + ua[3][c] for c in prev[3]}]
+        else:
+          merged.append(ua)
+      was_merged = len(merged) != len(uas)
+      uas = merged
       try:
         reply = adapter.apply(eng, uas)
-        for act, ret in zip(bundle, reply["retValues"]):
+        for act, ret in zip(bundle, [] if was_merged else reply["retValues"]):
           if act["op"] == "Add" and ret not in (int(act["r"]), [int(act["r"])]):
             odd.append("Add of row %d returned %r" % (act["r"], ret))
       except Exception as e:   # pylint: disable=broad-except
